@@ -98,7 +98,7 @@ theorem fire_submits_all (h : Hyp cfg rank) (hs : StartOK cfg (den cfg P rank) s
     (choices : List Nat) (s' : Sys α) (hrun : mainLoop cfg P choices (sys0 st0) = .ok (s', .starved)) :
     (pendKeys s').Nodup ∧ (∀ k, k ∈ pendKeys s' ↔ k ∈ s'.st.running) ∧ ∀ b ∈ s'.pending, b ≠ [] := by
   rcases mainLoop_spec P (den_fixpoint cfg P rank h) h.nw h.cs rank h.acyclic choices (sys0 st0) hs.sysInv with
-    hbad | ⟨s1, o1, hok, _, hstarved, _⟩
+    ⟨hbad, _⟩ | ⟨s1, o1, hok, _, hstarved, _⟩
   · rw [hbad] at hrun; cases hrun
   · rw [hok] at hrun
     cases hrun
